@@ -2,7 +2,10 @@
 
 package forwarder
 
-import "github.com/khirono/go-nl"
+import (
+	"github.com/khirono/go-nl"
+	"github.com/wmnsk/go-pfcp/ie"
+)
 
 // VerifNewFlowDesc calls the unexported (*Gtp5g).newFlowDesc of this tree (it uses no field of
 // the receiver).  Exists only in the scratch copy built by /verif/check.py.
@@ -13,4 +16,9 @@ func VerifNewFlowDesc(s string, swapSrcDst bool) (nl.AttrList, error) {
 // VerifConvertSlice calls the unexported convertSlice of this tree.
 func VerifConvertSlice(ports [][]uint16) []byte {
 	return convertSlice(ports)
+}
+
+// VerifNewPdi calls the unexported (*Gtp5g).newPdi of this tree on a PDI IE.
+func VerifNewPdi(i *ie.IE) (nl.AttrList, error) {
+	return (&Gtp5g{}).newPdi(i)
 }
